@@ -611,7 +611,7 @@ func (fr *frame) visit(in ssa.Instruction) cont {
 			it := &mapIter{m: x}
 			if m := r.mapRd(x); m != nil {
 				it.eids = append([]int(nil), m.eids...)
-				if r.E.Cfg.ReverseMaps {
+				if r.E.Cfg.ReverseMaps != r.reverseMaps {
 					for i, j := 0, len(it.eids)-1; i < j; i, j = i+1, j-1 {
 						it.eids[i], it.eids[j] = it.eids[j], it.eids[i]
 					}
